@@ -15,7 +15,7 @@ REGISTRY = collections.OrderedDict()
 
 class LoopSpec:
     def __init__(self, header=None, vars=None, invariants=None, havoc_fields=(), ghosts=None,
-                 ghost_update=None, ghost_init=None, exit_checks=False, assume_each=None):
+                 ghost_update=None, ghost_init=None, exit_checks=False, assume_each=None, light_inv=None):
         self.header = header
         self.vars = vars or {}
         self.invariants = invariants or []
@@ -24,6 +24,7 @@ class LoopSpec:
         self.ghost_update = ghost_update
         self.ghost_init = ghost_init
         self.exit_checks = exit_checks
+        self.light_invariants = light_inv or []   # cheap invariants also used for path pruning
         self.assume_each = assume_each     # trusted invariant of every element (input well-formedness)
 
 
@@ -274,6 +275,31 @@ class ClauseEnv:
     def obj(self, ref):
         return ObjView(self._it, ref, self._heap)
 
+    def decide(self, cond):
+        """True / False if the path condition settles cond, else None"""
+        ctx = self._it.ctx
+        c = simp(cond)
+        if z3.is_true(c):
+            return True
+        if z3.is_false(c):
+            return False
+        if not ctx.feasible(z3.Not(c)):
+            return True
+        if not ctx.feasible(c):
+            return False
+        return None
+
+    def ite(self, cond, a, b):
+        d = self.decide(cond)
+        if d is True:
+            return a
+        if d is False:
+            return b
+        return z3.If(cond, a, b)
+
+    def has_extra(self, name):
+        return name in self._extra
+
     def has_ghost(self, name):
         gv = getattr(self._fr, 'ghost_values', None)
         return gv is not None and name in gv
@@ -437,7 +463,7 @@ class FunctionResult:
         self.site_hits = {}
 
 
-def verify_function(repo, con, schema, lib, registry=None, engine_cls=VEngine, node_override=None):
+def verify_function(repo, con, schema, lib, registry=None, engine_cls=VEngine, node_override=None, single_prefix=None):
     registry = REGISTRY if registry is None else registry
     eng = engine_cls(repo, registry, schema, lib, **con.engine_opts)
     eng.current = con
@@ -490,7 +516,7 @@ def verify_function(repo, con, schema, lib, registry=None, engine_cls=VEngine, n
         for name, fn in con.requires_:
             ctx.assume(fn(env0))
         it.entry_heap = ctx.snapshot_heap()
-        ctx.obligs.append(Obligation(('reach', 'entry'), ctx.pc, z3.BoolVal(True), {}, {}, expect_sat=True))
+        ctx.add_reach('entry')
         yields = []
         if is_gen:
             def sink(v, e):
@@ -511,7 +537,7 @@ def verify_function(repo, con, schema, lib, registry=None, engine_cls=VEngine, n
             extra = {'yields': [view(it, y, ctx.heap) for y in yields], 'terminal': None,
                      'result': NONE, 'raw_yields': yields}
         env = ClauseEnv(it, fr, extra)
-        ctx.obligs.append(Obligation(('reach', 'return'), ctx.pc, z3.BoolVal(True), {}, {}, expect_sat=True))
+        ctx.add_reach('return')
         for name, fn, props in con.ensures_:
             goal = fn(env)
             ctx.oblige('post', name, goal)
@@ -532,12 +558,16 @@ def verify_function(repo, con, schema, lib, registry=None, engine_cls=VEngine, n
             ok = any(eng.exc_isinstance(exc.cls, a) for a in con.only_raises_)
             if not ok:
                 ctx.oblige('exc', 'only_raises:%s' % exc.cls, z3.BoolVal(False), {'line': exc.line})
-        ctx.obligs.append(Obligation(('reach', 'raise:' + exc.cls), ctx.pc, z3.BoolVal(True), {}, {}, expect_sat=True))
+        ctx.add_reach('raise:' + exc.cls)
         for name, ecls, fn, props in con.exc_ensures_:
             if eng.exc_isinstance(exc.cls, ecls):
                 ctx.oblige('exc', name, fn(env), {'line': exc.line})
 
-    obligs, problems = eng.explore(run_path)
+    if single_prefix is not None:
+        obligs, problems, siblings = eng.explore_one(run_path, list(single_prefix))
+        res.siblings = siblings
+    else:
+        obligs, problems = eng.explore(run_path)
     res.obligations = obligs
     res.problems.extend(problems)
     res.stats = dict(eng.stats)
